@@ -79,6 +79,12 @@ func (s *c15State) exprSig(n *qNode, count bool) string {
 	if count {
 		suffix = "/count"
 	}
+	if s.m.shiftCarry(n) {
+		return "shift-carry" + suffix
+	}
+	if s.m.shiftContainerCarry(n, s.storedInto) {
+		return "shift-container-carry-computed" + suffix
+	}
 	if s.env.Nodes > 1 {
 		fwd, nostd := false, false
 		n.walk(func(x *qNode) {
@@ -95,12 +101,6 @@ func (s *c15State) exprSig(n *qNode, count bool) string {
 		if nostd {
 			return "cluster-time-nostandard" + suffix
 		}
-	}
-	if s.m.shiftCarry(n) {
-		return "shift-carry" + suffix
-	}
-	if s.m.shiftContainerCarry(n, s.storedInto) {
-		return "shift-container-carry-computed" + suffix
 	}
 	nearZero := ""
 	timeNoStd := false
@@ -199,7 +199,7 @@ func (s *c15State) leaf() *qNode {
 	case "int":
 		ops := []string{"==", "!=", "<", "<=", ">", ">=", "between", "notnull"}
 		op := ops[rng.Intn(len(ops))]
-		if s.env.Nodes > 1 && (op == "between" || op == "notnull") && !rng.Chance(1, 8) {
+		if s.env.Nodes > 1 && (op == "between" || op == "notnull") && c15RareClasses && !rng.Chance(1, 8) {
 			op = ops[rng.Intn(6)] // forwarded between / != null are C26's known class: keep them rare
 		}
 		pred := func() int64 {
@@ -209,7 +209,7 @@ func (s *c15State) leaf() *qNode {
 			return f.Min - 3 + int64(rng.Intn(int(f.Max-f.Min)+7))
 		}
 		n := &qNode{Kind: "rowint", Field: name, Op: op, P1: pred()}
-		if (op == "<" || op == ">") && (n.P1 == 0 || n.P1 == -1) && !rng.Chance(1, 4) {
+		if (op == "<" || op == ">") && (n.P1 == 0 || n.P1 == -1) && c15RareClasses && !rng.Chance(1, 4) {
 			n.P1 = 1 + int64(rng.Intn(3)) // keep the known near-zero class rare
 		}
 		inside := func() int64 { // strictly inside the range representable at the current bit depth
@@ -223,7 +223,7 @@ func (s *c15State) leaf() *qNode {
 			}
 			return int64(rng.Intn(int(2*lim-1))) - (lim - 1)
 		}
-		if c15Inequality(op) && s.beyond(f, n.P1) && !rng.Chance(1, 6) {
+		if c15Inequality(op) && s.beyond(f, n.P1) && c15RareClasses && !rng.Chance(1, 6) {
 			n.P1 = inside() // keep the known beyond-bit-depth class (C14) rare
 			if (op == "<" || op == ">") && (n.P1 == 0 || n.P1 == -1) {
 				n.P1 = 1
@@ -235,14 +235,14 @@ func (s *c15State) leaf() *qNode {
 				n.P1, n.P2 = n.P2, n.P1
 			}
 			n.LoEq, n.HiEq = rng.Bool(), rng.Bool()
-			if (s.beyond(f, n.P1) || s.beyond(f, n.P2)) && !rng.Chance(1, 6) {
+			if (s.beyond(f, n.P1) || s.beyond(f, n.P2)) && c15RareClasses && !rng.Chance(1, 6) {
 				n.P1, n.P2 = inside(), inside()
 				if n.P2 < n.P1 {
 					n.P1, n.P2 = n.P2, n.P1
 				}
 			}
 		}
-		if op == "between" && mEmptyInterval(n) && !rng.Chance(1, 5) {
+		if op == "between" && mEmptyInterval(n) && c15RareClasses && !rng.Chance(1, 5) {
 			n.LoEq, n.HiEq = true, true // keep the known empty-interval class rare
 		}
 		return n
@@ -562,7 +562,7 @@ func (s *c15State) mutate() {
 				bad = true
 			}
 		})
-		if bad {
+		if bad && c15RareClasses {
 			return
 		}
 		cols, _ := s.m.eval(src)
@@ -580,8 +580,8 @@ func (s *c15State) mutate() {
 		}
 		rbSig := "Store-readback/" + strings.Join(src.kinds(), "+")
 		if emptied {
-			if !rng.Chance(1, 6) {
-				return // keep the known class (stale row after Store of a shard-empty source) rare
+			if c15RareClasses && !rng.Chance(1, 6) {
+				return // keep the class (stale row after Store of a shard-empty source) rare
 			}
 			rbSig = "Store-readback/source-empty-in-a-destination-shard"
 			s.r.Cover("store:source-empty-in-dest-shard")
@@ -651,6 +651,12 @@ func (s *c15State) checkRow(n *qNode, sig string) {
 		s.fail(sig, fmt.Sprintf("final read-back %s: %s; got %s want %s", pql, vk.DiffU64(got, ws), vk.Brief(got), vk.Brief(ws)), pql)
 	}
 }
+
+// c15RareClasses: when set (VERIF_C15_RARE_CLASSES=1) the generator keeps the input
+// classes of defects that were known before their fixes (2d0b338, e7a1fb7, 8d75853,
+// d745dfd, 2ef1cec) down to a small share of a run, and keeps them out of Store()
+// sources. With the fixes in the tree they are generated at their natural frequency.
+var c15RareClasses = os.Getenv("VERIF_C15_RARE_CLASSES") != ""
 
 func c15Nodes() int {
 	if n, err := strconv.Atoi(os.Getenv("VERIF_ESRV_NODES")); err == nil && n > 1 {
